@@ -105,7 +105,8 @@ def r3(ctx, R):
         gen = [v for k, v in asg.items() if 'genCoeffs' in ast.unparse(v)]
         asks = any('embedded=True' in ast.unparse(v) for v in gen)
         two_rows = any(k == 'weights' and re.search(r'np\.zeros\(\(2,', ast.unparse(v)) for k, v in asg.items())
-        if not gen and not own_emb:
+        inherits_emb = any(isinstance(c, ClassInfo) and 'ButcherTableauClass' in c.class_assigns and ast.unparse(c.class_assigns['ButcherTableauClass']) == 'ButcherTableauEmbedded' for c in ci.mro)
+        if not gen and not own_emb and not inherits_emb:
             continue
         R.fn(w)
         if gen:
@@ -122,8 +123,11 @@ def r3(ctx, R):
             val = None
             if ok:
                 rets = [x.value for x in ast.walk(r[1]) if isinstance(x, ast.Return)]
-                ok = len(rets) == 1 and isinstance(rets[0], ast.Constant) and isinstance(rets[0].value, int) and rets[0].value >= 2
                 val = ast.unparse(rets[0]) if rets else None
+                if len(rets) == 1 and not isinstance(rets[0], ast.Constant):
+                    R.exc(f'{ci.name} :: update order is computed ({val[:60]}), not a literal', w, 'the VALUE of an order is numeric and not decided by this check (DESIGN.md 11.1); only the presence of a documented order is')
+                    continue
+                ok = len(rets) == 1 and isinstance(rets[0].value, int) and rets[0].value >= 2
             R.check(ok, f'{ci.name} :: embedded scheme documents its update order (the base class raises)', w, 'get_update_order returns an integer >= 2', val)
     if n_emb < 8:
         raise AnalysisError(f'C04.R3: only {n_emb} embedded Runge-Kutta classes found')
@@ -173,3 +177,23 @@ def r4(ctx, R):
     setter = [f for f in ci.node.body if isinstance(f, ast.FunctionDef) and f.name == 'level' and any('setter' in ast.unparse(d) for d in f.decorator_list)]
     ok = len(setter) == 1 and re.search(r'if lvl\.params\.restol > 0:\n\s+lvl\.params\.restol = -1', ast.unparse(setter[0])) is not None
     R.check(ok, 'RungeKutta.level (setter) :: a positive residual tolerance is switched off (a tableau step is not iterated)', f'{RK}:RungeKutta.level', 'if restol > 0: restol = -1', 'not found' if not ok else 'ok')
+
+
+@rule('C04', 'C04.R5', 'each sweep can raise the order by one only with a (strictly) lower triangular QDelta: the explicit builder asserts a zero diagonal, the implicit one a zero upper triangle, on every path to its return', floor=2)
+def r5(ctx, R):
+    from ..cfg import FuncCFG
+    repo = ctx.repo
+    rel = 'pySDC/core/sweeper.py'
+    for name, tri_k in (('get_Qdelta_implicit', 1), ('get_Qdelta_explicit', 0)):
+        fn = repo.func(rel, 'Sweeper.' + name)
+        w = f'{rel}:Sweeper.{name}'
+        R.fn(w)
+        cfg = FuncCFG(fn)
+        rets = [n for n, s in cfg.stmt_of.items() if isinstance(s, ast.Return)]
+        if not rets:
+            raise AnalysisError(f'{w}: no return')
+        mat = ast.unparse(cfg.stmt_of[rets[0]].value)
+        asserts = [n for n in cfg.stmt_of if any(ast.unparse(c.func) == 'np.testing.assert_array_equal' and f'np.triu({mat}, k={tri_k})' in ast.unparse(c) for c in cfg.calls_at(n))]
+        anyk = [ast.unparse(c)[:70] for n in cfg.stmt_of for c in cfg.calls_at(n) if ast.unparse(c.func) == 'np.testing.assert_array_equal']
+        ok = bool(asserts) and all(any(cfg.dominates(a, r) for a in asserts) for r in rets)
+        R.check(ok, f'Sweeper.{name} :: assert_array_equal(np.triu({mat}, k={tri_k}), 0) dominates every return of the matrix', w, f'triu(.., k={tri_k}) == 0 asserted ({"strictly lower: the explicit term of node m may not contain f(u_m)" if tri_k == 0 else "lower: forward substitution"})', anyk)
